@@ -121,10 +121,11 @@ PROPS = {
         "profiles": {"quick": ["mon", "monrel"], "thorough": ["mon", "monrel"]},
         "scale": {"quick": 1, "thorough": 30},
         "floors": {
-            "quick": {"triples": 100000, "pairs": 10000, "lattice_pairs": 500, "field_sub_pairs": 2000, "domains_exhaustive": 1},
+            "quick": {"triples": 100000, "pairs": 10000, "lattice_pairs": 500, "field_sub_pairs": 2000, "domains_exhaustive": 1,
+                      "bitgrid_pairs": 1000000},
             "thorough": {"triples": 500000},
         },
-        "rule": "One evaluation = one triple (a,b,c) of elements of one shipped weight type on which the laws are asserted with the type's own == : + associative/commutative, * associative/commutative, identities, annihilating zero, left/right distributivity; a+b and a*b are additionally compared with independent reference arithmetic (overflow-free double-and-add modular arithmetic, exact dyadic rationals, naturals, coefficient vectors mod x^32). Declared rings (real, expected utility, finite fields): (a+b)-b == a, and finite-field a-b == (a-b) mod P. Lattices (real, expected utility): join/meet idempotent, commutative, associative; whenever partial_cmp relates two elements join and choose return the larger and meet the smaller; the declared EU order is compared with the componentwise definition. Domains: Boolean exhaustive; real 9 dyadic values incl. negatives (all 729 triples); complex and expected utility 5x5 grids (all 15625 triples each); rationals 0..12 (all 2197 triples); polynomials of lengths {0,1,2,16,31,32,random} with small integer coefficients (random); finite fields for ALL SEVEN exported primes over {0,1,2,P/2-1,P/2,P/2+1,P-2,P-1,2^32,2^64-1,2^64+1 mod P, 3 random} (all 2744 triples per prime). Run in both build profiles (overflow checks on: a panic is a violation; off: a wrong value is). Every triple is non-trivial and distinct by construction; distinct = distinct (type, a, b, c).",
+        "rule": "One evaluation = one triple (a,b,c) of elements of one shipped weight type on which the laws are asserted with the type's own == : + associative/commutative, * associative/commutative, identities, annihilating zero, left/right distributivity; a+b and a*b are additionally compared with independent reference arithmetic (overflow-free double-and-add modular arithmetic, exact dyadic rationals, naturals, coefficient vectors mod x^32). Declared rings (real, expected utility, finite fields): (a+b)-b == a, and finite-field a-b == (a-b) mod P. Lattices (real, expected utility): join/meet idempotent, commutative, associative; whenever partial_cmp relates two elements join and choose return the larger and meet the smaller; the declared EU order is compared with the componentwise definition. Domains: Boolean exhaustive; real 9 dyadic values incl. negatives (all 729 triples); complex and expected utility 5x5 grids (all 15625 triples each); rationals 0..12 (all 2197 triples); polynomials of lengths {0,1,2,16,31,32,random} with small integer coefficients (random); finite fields for ALL SEVEN exported primes over {0,1,2,P/2-1,P/2,P/2+1,P-2,P-1,2^32,2^64-1,2^64+1 mod P, 3 random} (all 2744 triples per prime). Run in both build profiles (overflow checks on: a panic is a violation; off: a wrong value is). Every triple is non-trivial and distinct by construction; distinct = distinct (type, a, b, c). Bit-length grid: for each of the seven exported primes, every pair of values around each power of two up to the prime's bit length (2^i - 1, 2^i, 2^i + 1, a random value of that length, reduced modulo P): product, sum and difference against wide reference arithmetic, in both build profiles.",
         "exhaustive_note": "Boolean: complete. Real/complex/expected-utility/rational: all triples over the stated finite grids. Finite fields: all triples over the stated boundary sets for each of the seven exported primes. Polynomials: sampled.",
         "assumptions": ASSUME_COMMON + ["S10: FiniteField::negate is 1-v (hash complement) and is not tested as an additive inverse", "S11: rational values are naturals reachable from one/zero"],
     },
